@@ -245,3 +245,268 @@ run_from_new!(run_from_new_2, 2, 6);
 run_from_new!(run_from_new_3, 3, 7);
 run_from_new!(run_from_new_4, 4, 8);
 run_from_new!(run_from_new_5, 5, 9);
+
+// ---------------------------------------------------------------------------------------
+// Layer 2: one-step refinement from an arbitrary valid parser state (covers histories of
+// any length by induction: abstract(Parser::new()) == Vt::new(), and every step preserves
+// "callbacks agree and abstract(parser) == model").
+// ---------------------------------------------------------------------------------------
+
+pub const OSCN: usize = 6;
+
+/// An arbitrary model state in parser state `st` with exactly `n` completed parameter
+/// values and `n_cuts` completed OSC fields (concrete shape), everything else symbolic
+/// under the model's invariant.
+pub fn any_model(st: St, n: usize, n_cuts: usize) -> Vt<OSCN> {
+    let mut m: Vt<OSCN> = Vt::new();
+    m.st = st;
+    m.inter = kani::any();
+    m.n_inter = kani::any();
+    kani::assume(m.n_inter <= vt::MAX_INTERMEDIATES);
+    m.vals = kani::any();
+    m.sub = kani::any();
+    m.sub[0] = false;
+    m.n = n;
+    m.cur = kani::any();
+    m.cur_sub = kani::any();
+    if n == 0 {
+        m.cur_sub = false;
+    }
+    m.ignore = kani::any();
+    m.osc = kani::any();
+    m.osc_len = kani::any();
+    // room for one more payload byte inside the model buffer
+    kani::assume(m.osc_len < OSCN);
+    m.n_cuts = n_cuts;
+    let mut prev = 0usize;
+    let mut i = 0;
+    while i < vt::MAX_OSC_FIELDS {
+        if i < n_cuts {
+            let c: usize = kani::any();
+            kani::assume(prev <= c && c <= m.osc_len);
+            m.cuts[i] = c;
+            prev = c;
+        }
+        i += 1;
+    }
+    if n_cuts == vt::MAX_OSC_FIELDS {
+        // the model stops recording once 16 fields are complete
+        kani::assume(m.osc_len == m.cuts[vt::MAX_OSC_FIELDS - 1]);
+    }
+    m
+}
+
+/// Build a real parser whose abstraction is `m`; fields the abstraction does not look at
+/// are symbolic.
+pub fn concretize(m: &Vt<OSCN>, extra_osc: usize) -> Parser {
+    // params
+    let mut subparams: [u8; 32] = kani::any();
+    let mut cnt = [1u8; 33];
+    let mut i = m.n;
+    while i > 0 {
+        i -= 1;
+        cnt[i] = if i + 1 < m.n && m.sub[i + 1] { cnt[i + 1] + 1 } else { 1 };
+        if !m.sub[i] {
+            subparams[i] = cnt[i];
+        }
+    }
+    // length of the trailing group when the pending value continues it
+    let mut current_subparams = 0u8;
+    if m.cur_sub {
+        let mut k = m.n;
+        let mut open = true;
+        while k > 0 {
+            k -= 1;
+            if open {
+                current_subparams += 1;
+                if !m.sub[k] {
+                    open = false;
+                }
+            }
+        }
+    }
+    let params = Params::verif_from_parts(subparams, m.vals, current_subparams, m.n);
+    // OSC buffer: the model's payload, plus bytes the real parser keeps after the 16th
+    // field (they belong to no field)
+    let mut raw = [0u8; OSCN + 2];
+    let mut k = 0;
+    while k < OSCN {
+        raw[k] = m.osc[k];
+        k += 1;
+    }
+    let mut raw_len = m.osc_len;
+    if m.n_cuts == vt::MAX_OSC_FIELDS {
+        raw[raw_len] = kani::any();
+        raw[raw_len + 1] = kani::any();
+        raw_len += extra_osc;
+    }
+    let mut osc_params: [(usize, usize); 16] = kani::any();
+    let mut prev = 0usize;
+    let mut i = 0;
+    while i < 16 {
+        if i < m.n_cuts {
+            osc_params[i] = (prev, m.cuts[i]);
+            prev = m.cuts[i];
+        }
+        i += 1;
+    }
+    Parser::verif_from_parts(anstyle_parse::VerifParts {
+        state: real_state(m.st),
+        intermediates: m.inter,
+        intermediate_idx: m.n_inter,
+        params,
+        param: m.cur,
+        osc_raw: &raw[..raw_len],
+        osc_params,
+        osc_num_params: m.n_cuts,
+        ignoring: m.ignore,
+        utf8_parser: Default::default(),
+    })
+}
+
+/// abstract(parser) == model, field by field.
+pub fn abstracts_to(p: &Parser, m: &Vt<OSCN>) -> bool {
+    let parts = p.verif_parts();
+    let mut ok = true;
+    ok &= model_state(parts.state) == Some(m.st);
+    ok &= parts.intermediate_idx == m.n_inter;
+    ok &= m.n_inter < 1 || parts.intermediates[0] == m.inter[0];
+    ok &= m.n_inter < 2 || parts.intermediates[1] == m.inter[1];
+    ok &= parts.param == m.cur;
+    ok &= parts.ignoring == m.ignore;
+    let (subparams, values, current, len) = parts.params.verif_parts();
+    ok &= len == m.n;
+    // group structure: walk the real list group by group
+    let mut next_start = 0usize;
+    let mut last_start = 0usize;
+    let mut i = 0;
+    while i < 32 {
+        if i < len {
+            ok &= values[i] == m.vals[i];
+            let is_start = i == next_start;
+            ok &= is_start == !m.sub[i];
+            if is_start {
+                last_start = i;
+                let c = subparams[i] as usize;
+                next_start = i + if c == 0 { 1 } else { c };
+            }
+        }
+        i += 1;
+    }
+    if m.cur_sub {
+        ok &= current as usize == len - last_start && len > 0;
+    } else {
+        ok &= current == 0;
+        ok &= len == 0 || next_start == len;
+    }
+    // OSC
+    ok &= parts.osc_num_params == m.n_cuts;
+    let mut prev = 0usize;
+    let mut i = 0;
+    while i < 16 {
+        if i < m.n_cuts {
+            ok &= parts.osc_params[i] == (prev, m.cuts[i]);
+            prev = m.cuts[i];
+        }
+        i += 1;
+    }
+    if m.n_cuts == 16 {
+        ok &= parts.osc_raw.len() >= m.osc_len;
+    } else {
+        ok &= parts.osc_raw.len() == m.osc_len;
+    }
+    let mut k = 0;
+    while k < OSCN {
+        if k < m.osc_len {
+            ok &= k < parts.osc_raw.len() && parts.osc_raw[k] == m.osc[k];
+        }
+        k += 1;
+    }
+    ok
+}
+
+#[kani::proof]
+#[kani::unwind(34)]
+fn step_initial_state() {
+    let p = Parser::<anstyle_parse::DefaultCharAccumulator>::new();
+    let m: Vt<OSCN> = Vt::new();
+    assert!(abstracts_to(&p, &m), "abstract(Parser::new()) == Vt::new()");
+    kani::cover!(m.st == St::Ground);
+}
+
+macro_rules! step_case {
+    ($name:ident, $st:expr, $n:expr, $cuts:expr, $extra:expr) => {
+        #[kani::proof]
+        #[kani::unwind(34)]
+        fn $name() {
+            let mut m = any_model($st, $n, $cuts);
+            let mut p = concretize(&m, $extra);
+            assert!(abstracts_to(&p, &m), "HARNESS-LIMIT: concretize/abstract disagree");
+            let b: u8 = kani::any();
+            let pre_n = m.n;
+            let ok = lockstep(&mut p, &mut m, b);
+            assert!(ok, "callbacks agree with the model");
+            assert!(abstracts_to(&p, &m), "post-state refines the model's post-state");
+            assert!(m.n_inter <= 2 && m.n <= 32 && m.n_cuts <= 16, "invariant preserved");
+            kani::cover!(m.st != $st);
+            kani::cover!(m.n > pre_n);
+            kani::cover!(m.ignore);
+        }
+    };
+}
+
+// every parser state with few parameters (symbolic values / structure)
+step_case!(step_ground, St::Ground, 1, 1, 0);
+step_case!(step_escape, St::Escape, 0, 0, 0);
+step_case!(step_escape_intermediate, St::EscapeIntermediate, 0, 0, 0);
+step_case!(step_csi_entry, St::CsiEntry, 0, 0, 0);
+step_case!(step_csi_param_0, St::CsiParam, 0, 0, 0);
+step_case!(step_csi_param_2, St::CsiParam, 2, 0, 0);
+step_case!(step_csi_intermediate, St::CsiIntermediate, 2, 0, 0);
+step_case!(step_csi_ignore, St::CsiIgnore, 1, 0, 0);
+step_case!(step_dcs_entry, St::DcsEntry, 0, 0, 0);
+step_case!(step_dcs_param, St::DcsParam, 2, 0, 0);
+step_case!(step_dcs_intermediate, St::DcsIntermediate, 1, 0, 0);
+step_case!(step_dcs_passthrough, St::DcsPassthrough, 1, 0, 0);
+step_case!(step_dcs_ignore, St::DcsIgnore, 1, 0, 0);
+step_case!(step_osc_0, St::OscString, 0, 0, 0);
+step_case!(step_osc_2, St::OscString, 0, 2, 0);
+step_case!(step_sos, St::SosPmApcString, 0, 0, 0);
+// the documented limits: 31 / 32 parameter values, 15 / 16 OSC fields
+step_case!(step_csi_param_31, St::CsiParam, 31, 0, 0);
+step_case!(step_csi_param_32, St::CsiParam, 32, 0, 0);
+step_case!(step_csi_intermediate_32, St::CsiIntermediate, 32, 0, 0);
+step_case!(step_dcs_param_31, St::DcsParam, 31, 0, 0);
+step_case!(step_dcs_param_32, St::DcsParam, 32, 0, 0);
+step_case!(step_osc_15, St::OscString, 0, 15, 0);
+step_case!(step_osc_16, St::OscString, 0, 16, 0);
+step_case!(step_osc_16_extra, St::OscString, 0, 16, 2);
+
+/// UTF-8 state: a lead byte plus up to two further bytes from Ground, then one more
+/// arbitrary byte -- all bytes symbolic, escape processing must stay suspended.
+#[kani::proof]
+#[kani::unwind(34)]
+fn step_utf8() {
+    let mut m = any_model(St::Ground, 1, 1);
+    let mut p = concretize(&m, 0);
+    let lead: u8 = kani::any();
+    kani::assume(lead >= 0xC2 && lead <= 0xF4);
+    assert!(lockstep(&mut p, &mut m, lead));
+    let k: u8 = kani::any();
+    kani::assume(k <= 2);
+    let mut i = 0;
+    while i < 2 {
+        if i < k && m.st == St::Utf8 {
+            let b: u8 = kani::any();
+            assert!(lockstep(&mut p, &mut m, b), "callbacks agree inside a character");
+        }
+        i += 1;
+    }
+    let was_utf8 = m.st == St::Utf8;
+    let b: u8 = kani::any();
+    assert!(lockstep(&mut p, &mut m, b), "callbacks agree with the model");
+    assert!(abstracts_to(&p, &m), "post-state refines the model's post-state");
+    kani::cover!(was_utf8 && b == 0x1B && m.st == St::Ground);
+    kani::cover!(was_utf8 && m.st == St::Utf8);
+    kani::cover!(!was_utf8 && m.st == St::Escape);
+}
